@@ -21,6 +21,13 @@ def run(c):
     if st["violated"]:
         c.spec_violation(st, "layout rule")
         return
+    # the finite abstraction of both passes: the rule equivalence and the unreachability of the second pass's panic! hold
+    # for texts of EVERY length (TLC explores the complete abstract state graph)
+    sk = vf.tlc_generate("MC_LayoutKinds", "INIT Init\nNEXT Next\nINVARIANTS RuleEquivalent NeverTwoNl\nCHECK_DEADLOCK FALSE\n", "layout-kinds", timeout=600, workers=4)
+    c.add_tlc(sk, "kind-level finite abstraction of the two lexer passes (all lengths): rule equivalence, no two consecutive line-break terminators")
+    if sk["violated"]:
+        c.spec_violation(sk, "layout tables vs the one-sentence rule")
+        return
     runs = [("pairs", st)]
     for alpha in ("ALayout", "ASymbols", "AOps"):
         s2 = vf.tlc_generate("MC_Lexer", lc.lexer_cfg(alpha, n, True), "lex-%s-%d" % (alpha, n), timeout=3000)
